@@ -41,6 +41,8 @@ type c15env struct {
 	seq   int
 	// firstSeen: when an awaiting cache entry (address|hash) was first observed
 	firstSeen map[string]time.Time
+	// keep: awaiting transactions that later request shapes refer to (never drained)
+	keep map[[32]byte]bool
 }
 
 // shortKeyAddress is a well formed address (valid version and checksum) of a key that is not 32 bytes long.
@@ -146,6 +148,9 @@ func (e *c15env) call(svcName, rpc, shape string, mayChange bool, f func() (any,
 		}
 	}
 	e.last = after
+	if e.seq%400 == 0 {
+		e.drainAwaiting()
+	}
 	if e.seq%997 == 1 {
 		r.Sample(10, map[string]any{"service": svcName, "rpc": rpc, "request_shape": shape, "outcome": outcome})
 	}
@@ -174,6 +179,27 @@ func (e *c15env) allOld(keys []string) bool {
 		}
 	}
 	return true
+}
+
+// drainAwaiting lets the receivers reject the awaiting contracts that have piled up. The awaiting cache keeps one
+// growing list per address and rewrites it on every save; with thousands of entries the list's own rewrites push young
+// entries out of its 512 KB cache shard, which would look like an effect of whatever request happens to run then.
+func (e *c15env) drainAwaiting() {
+	ctx := context.Background()
+	for _, u := range e.rig.Users {
+		trxs, err := e.rig.Cache.ReadTransactions(u.Addr)
+		if err != nil || len(trxs) < 40 {
+			continue
+		}
+		for _, t := range trxs {
+			if t.ReceiverAddress != u.Addr || e.keep[t.Hash] {
+				continue
+			}
+			e.rig.Notary.Reject(ctx, svc.Sign(u, t.Hash[:]))
+		}
+	}
+	e.last = nil
+	e.w.R.Count("c15_awaiting_drains", 1)
 }
 
 func (e *c15env) ages(keys []string) string {
@@ -426,6 +452,7 @@ func c15Worker(w *core.WorkerCtx) {
 	}
 	awaiting := e.freshTrx(true)
 	rig.Notary.Propose(ctx, awaiting)
+	e.keep = map[[32]byte]bool{[32]byte(awaiting.Hash): true}
 	time.Sleep(20 * time.Millisecond)
 
 	part := w.Batch % 4
